@@ -296,6 +296,9 @@ func concConfigs(thorough bool) []concCfg {
 				if c >= 11 && (b >= 11 || !(a <= 3 || a == 8)) {
 					continue // local-key store, local receivers: triples with representative siblings only
 				}
+				if !thorough && c < 11 && (a+b+c)%2 == 1 {
+					continue // quick: every second triple of the first eleven kinds (all pairs are explored)
+				}
 				out = append(out, concCfg{Kids: []int{a, b, c}})
 			}
 		}
@@ -308,11 +311,11 @@ func init() {
 	hx.Register(&hx.Prop{
 		ID:          "C18",
 		Workers:     func(string) int { return 16 },
-		BudgetQuick: 150 * time.Second,
+		BudgetQuick: 400 * time.Second,
 		BudgetThor:  25 * time.Minute,
 		Kind:        "schedules",
-		Rule: "every conc block with 1..3 distinct children over 14 statement kinds (assignments to the same / different locals, injected field, map entry with a literal and with a rule-local key; function, method, three-level calls on injected objects and on an object held in a rule local; failing assignment / function / method), also re-entered inside a for loop and in two concurrently running rules; " +
-			"every schedule of the block's goroutines (4 spawners + one per child) with <=2 (thorough 3) preemptions for 1-2 children and <=1 (thorough 2) for 3 children / two rules; oracle: each child exactly once, every child end before the next statement, next statement observes all assignments, failure => error after all children finished and the next statement does not run, nothing still runs after the call returned",
+		Rule: "every conc block with 1..2 distinct children, and (quick: every second; thorough: every) block with 3 distinct children, over 14 statement kinds (assignments to the same / different locals, injected field, map entry with a literal and with a rule-local key; function, method, three-level calls on injected objects and on an object held in a rule local; failing assignment / function / method), also re-entered inside a for loop, in two concurrently running rules, and evaluated by two overlapping pool requests (one rule tree shared by all instances; every schedule with <=2 (3) deviations); " +
+			"every schedule of the block's goroutines (4 spawners + one per child) with <=2 preemptions for 1-2 children and <=1 for 3 children / two rules (thorough: one more for single children, every third pair and every fourth triple, plus more for-loop and two-rule variants); oracle: each child exactly once, every child end before the next statement, next statement observes all assignments, failure => error after all children finished and the next statement does not run, nothing still runs after the call returned",
 		Assume: []string{"injected functions terminate", "sequentially consistent memory (races are C19's subject)"},
 		Run: func(c *hx.Ctx) {
 			b := 2
@@ -332,13 +335,140 @@ func init() {
 				if len(cfg.Kids) >= 3 || cfg.Two {
 					bb = b - 1 // 8+ threads: one preemption less
 				}
+				if c.Thorough() && len(cfg.Kids) >= 2 {
+					// the deeper bound for every third pair / fourth triple (all of them do not finish in the budget)
+					sum := 0
+					for _, k := range cfg.Kids {
+						sum += k
+					}
+					if (len(cfg.Kids) == 2 && sum%3 != 0) || (len(cfg.Kids) >= 3 && sum%4 != 0) {
+						bb--
+					}
+				}
 				hx.Explore("C18", concScenario(cfg), hx.ExploreCfg{Bound: bb, Prune: true, Deadline: c.Deadline}, c.Res)
+			}
+			// the same block evaluated by two overlapping pool requests (all instances share one rule tree)
+			if c.Shard == 0 {
+				for _, bad := range [][2]int64{{1, 0}, {0, 1}, {0, 0}, {1, 1}} {
+					hx.Explore("C18", concPoolScenario(bad), hx.ExploreCfg{Bound: envBound(delayBound(c, 2)), Delay: true, Prune: true, Deadline: c.Deadline}, c.Res)
+				}
 			}
 		},
 		Rebuild: func(v *hx.Violation) *hx.Scenario {
+			if v.Scenario == "concpool" {
+				var bad [2]int64
+				json.Unmarshal(v.Cfg, &bad)
+				return concPoolScenario(bad)
+			}
 			var cfg concCfg
 			json.Unmarshal(v.Cfg, &cfg)
 			return concScenario(cfg)
 		},
 	})
+}
+
+// ---- one conc block evaluated by two overlapping pool requests ----
+
+type concPoolReq struct {
+	Id  int64
+	Bad int64
+}
+
+type concPoolState struct {
+	log   *gx.Log
+	errs  [2]error
+	pans  [2]interface{}
+	after [2]int
+}
+
+const concPoolRules = `
+rule "cp" begin
+  x = 0
+  conc {
+    x = f(req.Id)
+    chk(req.Id, req.Bad)
+    y = 2
+  }
+  after(req.Id, x)
+end
+`
+
+var concPoolActive *concPoolState
+
+func concPoolScenario(bad [2]int64) *hx.Scenario {
+	apis := map[string]interface{}{
+		"f": func(id int64) int64 { concPoolActive.log.Ev("f", id); return id + 10 },
+		"chk": func(id, bad int64) {
+			concPoolActive.log.Ev("chk", id)
+			if bad == 1 {
+				panic("member fails")
+			}
+		},
+		"after": func(id, x int64) {
+			concPoolActive.log.Ev3("after", id, x)
+			if !vsched.Aborted() {
+				concPoolActive.after[id]++
+			}
+		},
+	}
+	template, err := engine.NewGenginePool(1, 2, engine.SortModel, concPoolRules, apis)
+	if err != nil {
+		vsched.InternalError("pool: %v", err)
+	}
+	return &hx.Scenario{
+		Name: "concpool",
+		Cfg:  bad,
+		Opts: vsched.Options{Horizon: 20000},
+		New:  func() interface{} { return &concPoolState{log: &gx.Log{}} },
+		Body: func(s interface{}) {
+			st := s.(*concPoolState)
+			concPoolActive = st
+			gp := gx.DeepClone(template).(*engine.GenginePool)
+			for i := 0; i < 2; i++ {
+				i := i
+				vsched.Go(func() {
+					st.errs[i], st.pans[i] = gx.CallGuarded(func() error {
+						e, _ := gp.Execute(map[string]interface{}{"req": &concPoolReq{Id: int64(i), Bad: bad[i]}}, true)
+						return e
+					})
+				})
+			}
+			vsched.WaitOthersDone()
+		},
+		Check: func(s interface{}, ex *vsched.Exec) (fs []hx.Finding) {
+			st := s.(*concPoolState)
+			desc := fmt.Sprintf("\n  failing member in request 0/1: %v\n  rule:%s  log=[%s] errors=[%v %v]", bad, concPoolRules, st.log, st.errs[0] != nil, st.errs[1] != nil)
+			add := func(sig, msg string) { fs = append(fs, hx.Finding{Sig: "c18:pool:" + sig, Msg: msg + desc}) }
+			if ex.Verdict != "" {
+				add(ex.Verdict, "execution did not complete: "+ex.Verdict+" "+firstLine(ex.Crash))
+				return
+			}
+			for i := 0; i < 2; i++ {
+				if st.pans[i] != nil {
+					add("panic", fmt.Sprintf("request %d panicked: %v", i, st.pans[i]))
+					continue
+				}
+				if (st.errs[i] != nil) != (bad[i] == 1) {
+					add("error-mismatch", fmt.Sprintf("request %d: a member of its conc block failed = %v, but the call returned error = %v", i, bad[i] == 1, st.errs[i] != nil))
+				}
+				want := 1
+				if bad[i] == 1 {
+					want = 0
+				}
+				if st.after[i] != want {
+					add("after-count", fmt.Sprintf("request %d: the statement after its conc block ran %d time(s), want %d", i, st.after[i], want))
+				}
+			}
+			for _, e := range st.log.Evs {
+				if e.K == "after" && e.A != e.ID+10 {
+					add("effect-lost", fmt.Sprintf("request %d: the statement after the block saw x=%d, want %d", e.ID, e.A, e.ID+10))
+				}
+			}
+			return
+		},
+		Outcome: func(s interface{}) string {
+			st := s.(*concPoolState)
+			return st.log.String() + fmt.Sprint(st.errs[0] != nil, st.errs[1] != nil)
+		},
+	}
 }
